@@ -149,6 +149,10 @@ def correspondence(ctx):
         elif f['op'] == 'contains' and f['a'] == 'set' and f['b'] == 'set' and f['place'] == 'right':
             key = 'proxied-set-needle-in-plain-set'
             why = None
+        elif f['a'] == 'card' and f['b'] == 'card' and f['place'] in ('right', 'both') and f['op'] in ('eq', 'ne', 'lt', 'gt', 'le', 'ge'):
+            # Card.__eq__/__lt__ read other.value; on a proxy `.value` is the proxy's own payload slot
+            key = 'proxied-object-with-a-value-attribute'
+            why = None
         else:
             key = 'opaque:%s:%s:%s:%s' % (f['op'], f['a'], f['b'], f['place'])
             why = None
